@@ -109,12 +109,23 @@ pub fn install_panic_hook() {
         } else {
             "<non-string panic>".to_string()
         };
+        // site = file name + a slug of the message (line numbers would make the identity of a
+        // panic site depend on unrelated edits above it)
+        let slug: String = msg
+            .chars()
+            .map(|c| if c.is_ascii_alphanumeric() { c } else { '-' })
+            .collect::<String>()
+            .split('-')
+            .filter(|w| !w.is_empty())
+            .collect::<Vec<_>>()
+            .join("-");
+        let slug: String = slug.chars().take(60).collect();
         let loc = info
             .location()
             .map(|l| {
                 let f = l.file();
                 let f = f.rsplit('/').next().unwrap_or(f);
-                format!("{}:{}", f, l.line())
+                format!("{}:{}", f, slug)
             })
             .unwrap_or_else(|| "?".into());
         LAST_PANIC.with(|p| *p.borrow_mut() = Some((msg, loc)));
